@@ -669,7 +669,7 @@ def record_generator_traces(nprog, seed0, langs):
     _n.Node.__hash__ = _h
 
     rec = {"items": None, "answers": None, "ctx": None}
-    reps, ids, keep = [], {}, []
+    reps, ids, keep, nrep = {}, {}, [], [0]
     tkeys, frozen = {}, {}      # id(type object) -> key / frozen copy at first sight
 
     def canon(o):
@@ -684,13 +684,16 @@ def record_generator_traces(nprog, seed0, langs):
                 keep.append(o)
                 fz = copy.deepcopy(o)
                 frozen[k] = (o, fz)
-                for i, r in enumerate(reps):
+                # == of types compares class and name first: bucket the representatives
+                bucket = reps.setdefault((type(o).__name__, getattr(o, "name", None)), [])
+                for i, r in bucket:
                     if r == o:
                         tkeys[k] = "tp%d" % i
                         break
                 else:
-                    reps.append(fz)
-                    tkeys[k] = "tp%d" % (len(reps) - 1)
+                    nrep[0] += 1
+                    bucket.append((nrep[0], fz))
+                    tkeys[k] = "tp%d" % nrep[0]
             return ["t", tkeys[k]]
         if k not in ids:
             ids[k] = len(ids)
@@ -942,8 +945,9 @@ def process_batch(seqs, impl_answers=None, masks=None):
 
 
 def _exh_worker(args):
-    """one shard of the exhaustive enumeration"""
-    first_letters, maxlen = args
+    """one shard of the exhaustive enumeration: all sequences that start with the letters
+    `prefix` and continue with 0..`more` further letters"""
+    prefix, more = args
     load_src()
     al = exhaustive_alphabet()
     stats = {"sequences": 0, "queries": 0, "outside": 0, "model_diffs": [], "spec_diffs": []}
@@ -962,12 +966,12 @@ def _exh_worker(args):
             if b is not None and len(stats["spec_diffs"]) < 5:
                 stats["spec_diffs"].append((s, b))
         del batch[:]
-    for fl in first_letters:
-        for n in range(0, maxlen):
-            for rest in itertools.product(al, repeat=n):
-                batch.append([al[fl]] + list(rest) + EXH_BATTERY)
-                if len(batch) >= 20000:
-                    flush()
+    head = [al[i] for i in prefix]
+    for n in range(0, more + 1):
+        for rest in itertools.product(al, repeat=n):
+            batch.append(head + list(rest) + EXH_BATTERY)
+            if len(batch) >= 20000:
+                flush()
     flush()
     return stats
 
@@ -1042,9 +1046,14 @@ def check(run):
     # (c) exhaustive small (thorough: length <= 5 over 21 letters; quick: length <= 3)
     al = exhaustive_alphabet()
     maxlen = 3 if quick else 5
-    shards = [([i], maxlen) for i in range(len(al))]
+    # length 1: one shard per letter; length >= 2: one shard per pair of first letters
+    if quick:
+        shards = [([i], maxlen - 1) for i in range(len(al))]
+    else:
+        shards = [([i], 0) for i in range(len(al))] + \
+                 [([i, j], maxlen - 2) for i in range(len(al)) for j in range(len(al))]
     with multiprocessing.Pool(min(16, os.cpu_count() or 1)) as pool:
-        exh = pool.map(_exh_worker, shards, chunksize=1)
+        exh = pool.map(_exh_worker, shards, chunksize=1 if quick else 4)
         exh_empty = process_batch([list(EXH_BATTERY)])
         account("exhaustive", [list(EXH_BATTERY)], exh_empty)
         n_exh = 0
@@ -1090,7 +1099,7 @@ def check(run):
     run.log("random: %d sequences (longest %d items)" % (n_rnd, longest))
 
     # (d) traces of real generator runs
-    nprog = 10 if quick else 150
+    nprog = 10 if quick else 60
     traces = record_generator_traces(nprog, run.seed * 1000, ["java", "kotlin", "groovy"])
     tseqs = [t["items"] for t in traces]
     tres = process_batch(tseqs, [t["answers"] for t in traces], [t["mutated"] > 0 for t in traces])
